@@ -116,6 +116,37 @@ def runMacro (s0 : State) (toks : List String) : State × Bool := Id.run do
       | none => ok := false
     let r := runOps s [.move (slotIdx d) A, .destroy A]
     return (r.1, ok && r.2)
+  | ["mchainremap", d, src, l, pos, cnt] =>
+    -- TreeRemap{x, y, z, t}: four children; the chain runs through slot `pos` (0 = t, 1 = x, 2 = y, 3 = z)
+    let r := runOps s [.copy A (slotIdx src)]
+    s := r.1; ok := ok && r.2
+    for _ in [0:nat! cnt] do
+      match ptrOf s A, ptrOf s (slotIdx l) with
+      | some pa, some pl =>
+        let kids : List RC.Ref :=
+          if nat! pos == 0 then [.old pl, .old pl, .old pl, .old pa]
+          else if nat! pos == 1 then [.old pa, .old pl, .old pl, .old pl]
+          else if nat! pos == 2 then [.old pl, .old pa, .old pl, .old pl]
+          else [.old pl, .old pl, .old pa, .old pl]
+        let r := runOps s [.build B [A, slotIdx l] false [⟨4, kids⟩] (.new 0) false, .moveAssign A B, .destroy B]
+        s := r.1; ok := ok && r.2
+      | _, _ => ok := false
+    let r := runOps s [.move (slotIdx d) A, .destroy A]
+    return (r.1, ok && r.2)
+  | ["mchainapply", d, src, v, l, pos, cnt] =>
+    -- TreeApply{target, value, t}: three children; the chain runs through t (pos 0) or value (pos 1)
+    let r := runOps s [.copy A (slotIdx src)]
+    s := r.1; ok := ok && r.2
+    for _ in [0:nat! cnt] do
+      match ptrOf s A, ptrOf s (slotIdx v), ptrOf s (slotIdx l) with
+      | some pa, some pv, some pl =>
+        let kids : List RC.Ref :=
+          if nat! pos == 0 then [.old pv, .old pl, .old pa] else [.old pv, .old pa, .old pl]
+        let r := runOps s [.build B [A, slotIdx v, slotIdx l] false [⟨3, kids⟩] (.new 0) false, .moveAssign A B, .destroy B]
+        s := r.1; ok := ok && r.2
+      | _, _, _ => ok := false
+    let r := runOps s [.move (slotIdx d) A, .destroy A]
+    return (r.1, ok && r.2)
   | _ => return (s, false)
 
 /-- translate one harness op (with what the harness reported about its outcome) into model ops -/
